@@ -109,6 +109,7 @@ struct State {
     last_running: Option<usize>,
     winding_down: bool,
     machinery: Option<String>,
+    free_boundaries: bool,
 }
 
 thread_local! {
@@ -226,6 +227,7 @@ pub fn begin() {
             last_running: None,
             winding_down: false,
             machinery: None,
+            free_boundaries: true,
         })
     });
 }
@@ -280,6 +282,12 @@ fn spawn_kind(name: &str, kind: ActorKind, body: impl FnOnce() + 'static) -> usi
         });
     });
     idx
+}
+
+/// Whether leaving an actor that sits at an operation boundary is free
+/// (default) or costs a preemption like any other switch.
+pub fn set_free_boundaries(free: bool) {
+    with_st(|st| st.free_boundaries = free);
 }
 
 /// Index of the running actor, if any.
@@ -711,7 +719,7 @@ pub fn run(cfg: &RunCfg, mut on_step: impl FnMut() -> bool) -> Verdict {
         // Is the actor that ran last still enabled, and would leaving it cost?
         let cur_enabled = last.filter(|l| enabled.contains(l));
         let cur_costly = cur_enabled
-            .map(|l| with_st(|st| st.actors[l].state != AState::AtBoundary))
+            .map(|l| with_st(|st| st.actors[l].state != AState::AtBoundary || !st.free_boundaries))
             .unwrap_or(false);
         let mut opts: Vec<Choice> = Vec::new();
         let mut costs: Vec<Cost> = Vec::new();
